@@ -106,12 +106,15 @@ theorem encodeData_cons (r : Rec) (rs : List Rec) : encodeData (r :: rs) = r.dat
   simp [encodeData]
 
 /-- The value part: with the value file cut at `dc`, exactly the records whose values are complete are delivered; the load
-stops quietly (io.EOF) at the first record whose value is missing. -/
-theorem specK_values (now : Int) : ∀ (recs : List Rec) (dr : Rd) (dc : Nat) (buf : Bytes),
+stops quietly (io.EOF) at the first record whose value is missing; otherwise it ends as the continuation `K` ends (`K` delivers
+nothing and stops with `st`). -/
+theorem specK_values (now : Int) (K : Option Rd → Bytes → List Rec × Stop × Bytes) (st : Stop)
+    (hK1 : ∀ d b, (K d b).1 = []) (hK2 : ∀ d b, (K d b).2.1 = st) :
+    ∀ (recs : List Rec) (dr : Rd) (dc : Nat) (buf : Bytes),
     (∀ x ∈ recs, WFRec x) → dr.Inv → dr.s = (encodeData recs).take dc →
-    (specK now Kend recs (some dr) buf).1 = live now (recs.take (valuePrefix recs dc)) ∧
-    (specK now Kend recs (some dr) buf).2.1 = (if valuePrefix recs dc = recs.length then Stop.fileEnd else Stop.eof)
-  | [], dr, dc, buf, _, _, _ => by simp [specK, Kend, live, valuePrefix]
+    (specK now K recs (some dr) buf).1 = live now (recs.take (valuePrefix recs dc)) ∧
+    (specK now K recs (some dr) buf).2.1 = (if valuePrefix recs dc = recs.length then st else Stop.eof)
+  | [], dr, dc, buf, _, _, _ => by simp [specK, hK1, hK2, live, valuePrefix]
   | x :: rs, dr, dc, buf, hw, hi, hs => by
     have hx := hw x (by simp)
     obtain ⟨hxb, hxd⟩ := hx
@@ -120,7 +123,7 @@ theorem specK_values (now : Int) : ∀ (recs : List Rec) (dr : Rd) (dc : Nat) (b
       rw [hdat] at hxd
       simp only at hxd
       have hs' : dr.s = (encodeData rs).take dc := by rw [hs, encodeData_cons, hdat]; rfl
-      obtain ⟨ih1, ih2⟩ := specK_values now rs dr dc x.buf (fun y hy => hw y (by simp [hy])) hi hs'
+      obtain ⟨ih1, ih2⟩ := specK_values now K st hK1 hK2 rs dr dc x.buf (fun y hy => hw y (by simp [hy])) hi hs'
       have hx' : x = ⟨x.buf, none⟩ := by cases x; simp_all
       simp only [specK, hxd, valuePrefix, hdat, Bool.false_eq_true, if_false]
       constructor
@@ -138,7 +141,7 @@ theorem specK_values (now : Int) : ∀ (recs : List Rec) (dr : Rd) (dc : Nat) (b
           rw [List.take_append]
           rw [List.take_of_length_le hle]
         obtain ⟨dr', hrd, hs', _, hi'⟩ := readLockData_complete dr blob _ hi hbw hsd
-        obtain ⟨ih1, ih2⟩ := specK_values now rs dr' (dc - blob.length) x.buf (fun y hy => hw y (by simp [hy])) hi' hs'
+        obtain ⟨ih1, ih2⟩ := specK_values now K st hK1 hK2 rs dr' (dc - blob.length) x.buf (fun y hy => hw y (by simp [hy])) hi' hs'
         have hx' : x = ⟨x.buf, some blob⟩ := by cases x; simp_all
         simp only [hrd]
         constructor
